@@ -264,13 +264,75 @@ theorem rejAdd_core (K : Keys) (s : State) (r : Rej) : SameCore s (rejAdd K s r)
 theorem rejectTx_core (K : Keys) (s : State) (t : Tx) (why : Nat) (m : Option TxId) :
     SameCore s (rejectTx K s t why m) := rejAdd_core K s _
 
-theorem addToSort_core (K : Keys) (s : State) (b : Nat) (t : T2S) : SameCore s (addToSort K s b t) := by
+/-- `s'` differs from `s` only in the sorted-list fields (sorted, ranks, sortStep, rankWrap, sortDirty) and possibly a
+    raised `panicked` flag -/
+structure SortOnly (s s' : State) : Prop where
+  pool : s'.pool = s.pool
+  spent : s'.spent = s.spent
+  utxo : s'.utxo = s.utxo
+  wt : s'.weightTotal = s.weightTotal
+  undo : s'.undo = s.undo
+  rej : s'.rej = s.rej
+  ring : s'.ring = s.ring
+  waiting : s'.waiting = s.waiting
+  rejSpent : s'.rejSpent = s.rejSpent
+  cfg : s'.cfg = s.cfg
+  height : s'.height = s.height
+  disabled : s'.sortDisabled = s.sortDisabled
+  sticky : s.panicked = true → s'.panicked = true
+
+theorem SortOnly.refl (s : State) : SortOnly s s := ⟨rfl, rfl, rfl, rfl, rfl, rfl, rfl, rfl, rfl, rfl, rfl, rfl, id⟩
+
+theorem SortOnly.trans {a b c : State} (h1 : SortOnly a b) (h2 : SortOnly b c) : SortOnly a c :=
+  ⟨h2.pool.trans h1.pool, h2.spent.trans h1.spent, h2.utxo.trans h1.utxo, h2.wt.trans h1.wt, h2.undo.trans h1.undo,
+   h2.rej.trans h1.rej, h2.ring.trans h1.ring, h2.waiting.trans h1.waiting, h2.rejSpent.trans h1.rejSpent,
+   h2.cfg.trans h1.cfg, h2.height.trans h1.height, h2.disabled.trans h1.disabled, fun h => h2.sticky (h1.sticky h)⟩
+
+theorem reindexAll_sortOnly (s : State) : SortOnly s (reindexAll s) :=
+  ⟨rfl, rfl, rfl, rfl, rfl, rfl, rfl, rfl, rfl, rfl, rfl, rfl, id⟩
+
+theorem reindexDown_sortOnly (s : State) (rb : Nat) (below : List Nat) : SortOnly s (reindexDown s rb below) := by
+  unfold reindexDown
+  dsimp only
+  split
+  · exact ⟨rfl, rfl, rfl, rfl, rfl, rfl, rfl, rfl, rfl, rfl, rfl, rfl, id⟩
+  · exact reindexAll_sortOnly s
+
+theorem fixIndex_sortOnly (s : State) (b : Nat) (bt wr : Option Nat) (below : List Nat) :
+    SortOnly s (fixIndex s b bt wr below) := by
+  unfold fixIndex
+  split
+  · exact ⟨rfl, rfl, rfl, rfl, rfl, rfl, rfl, rfl, rfl, rfl, rfl, rfl, id⟩
+  · dsimp only
+    split
+    · exact ⟨rfl, rfl, rfl, rfl, rfl, rfl, rfl, rfl, rfl, rfl, rfl, rfl, id⟩
+    · split
+      · exact (SortOnly.trans (b := { s with ranks := s.ranks.set b (rankOf s _ / 2) })
+          ⟨rfl, rfl, rfl, rfl, rfl, rfl, rfl, rfl, rfl, rfl, rfl, rfl, id⟩ (reindexAll_sortOnly _))
+      · exact ⟨rfl, rfl, rfl, rfl, rfl, rfl, rfl, rfl, rfl, rfl, rfl, rfl, fun _ => rfl⟩
+  · exact ⟨rfl, rfl, rfl, rfl, rfl, rfl, rfl, rfl, rfl, rfl, rfl, rfl, id⟩
+  · dsimp only
+    split
+    · exact ⟨rfl, rfl, rfl, rfl, rfl, rfl, rfl, rfl, rfl, rfl, rfl, rfl, id⟩
+    · exact reindexDown_sortOnly s _ _
+
+theorem addToSort_sortOnly (K : Keys) (s : State) (b : Nat) (t : T2S) : SortOnly s (addToSort K s b t) := by
   unfold addToSort
   split
-  · exact SameCore.refl s
+  · exact SortOnly.refl s
   · split
-    · exact ⟨rfl, rfl, rfl, rfl⟩
-    · split <;> exact ⟨rfl, rfl, rfl, rfl⟩
+    · exact ⟨rfl, rfl, rfl, rfl, rfl, rfl, rfl, rfl, rfl, rfl, rfl, rfl, id⟩
+    · split
+      · exact ⟨rfl, rfl, rfl, rfl, rfl, rfl, rfl, rfl, rfl, rfl, rfl, rfl, id⟩
+      · split
+        · exact ⟨rfl, rfl, rfl, rfl, rfl, rfl, rfl, rfl, rfl, rfl, rfl, rfl, fun _ => rfl⟩
+        · dsimp only
+          exact SortOnly.trans (b := { s with sorted := _, ranks := s.ranks.del b })
+            ⟨rfl, rfl, rfl, rfl, rfl, rfl, rfl, rfl, rfl, rfl, rfl, rfl, id⟩ (fixIndex_sortOnly _ _ _ _ _)
+
+theorem addToSort_core (K : Keys) (s : State) (b : Nat) (t : T2S) : SameCore s (addToSort K s b t) :=
+  have h := addToSort_sortOnly K s b t
+  ⟨h.pool, h.spent, h.utxo, h.wt⟩
 
 theorem delFromSort_core (s : State) (b : Nat) : SameCore s (delFromSort s b) := by
   unfold delFromSort
